@@ -15,6 +15,8 @@ def build(schedule_spec):
         "b": lambda: track.Task("b", track.Operation("op-b", "search", {}), tags=["setup", "heavy"]),
         "c": lambda: track.Task("c", track.Operation("op-c", "search", {}), tags="pre-setup"),
         "d": lambda: track.Task("d", track.Operation("op-d", "force-merge", {})),
+        # task filters are case-sensitive and go by the TASK name (an operation may carry the name of another task)
+        "E": lambda: track.Task("Query-EU", track.Operation("a", "search", {}), tags="ReadOnly"),
     }
     sched = []
     for el in schedule_spec:
@@ -88,8 +90,8 @@ def main():
         p = run_case([tuple(x) if isinstance(x, list) else x for x in c["schedule"]], c["filters"], c["exclude"])
         print(("REPRODUCED: " if p else "NOT-REPRODUCED: ") + f"schedule {c['schedule']} with {'exclude' if c['exclude'] else 'include'} filters {c['filters']}: {p}")
         sys.exit(1 if p else 0)
-    elements = ["a", "b", "c", "d", ("a", "b"), ("b", "c"), ("c", "d"), ("a",), ("a", "d"), ("#2", "a", "b"), ("#1", "c", "d"), ("#3", "a")]
-    flt = ["a", "b", "type:search", "type:bulk", "tag:setup", "tag:heavy", "zzz"]
+    elements = ["a", "b", "c", "d", "E", ("a", "b"), ("b", "c"), ("c", "d"), ("a",), ("a", "d"), ("a", "E"), ("#2", "a", "b"), ("#1", "c", "d"), ("#3", "a")]
+    flt = ["a", "b", "type:search", "type:bulk", "tag:setup", "tag:heavy", "zzz", "Query-EU", "query-eu", "tag:ReadOnly", "tag:readonly"]
     cases = nontrivial = 0
     violations = []
     for n in (1, 2, 3):
